@@ -28,7 +28,7 @@ const NAMES: [(&[u8], &str); 10] = [
     (b"X-Amz-Signature", ""),
     (b"X-Amz-Signature", "X-Amz-Signatur%65"),
 ];
-const VALUES: [&[u8]; 6] = [b"", b"1", b"0", b"a b", b"=", b"b=c"];
+const VALUES: [&[u8]; 7] = [b"", b"1", b"0", b"a b", b"=", b"b=c", b"%41"];
 
 fn enc_lower(b: &[u8]) -> String {
     pct::encode(b).chars().collect::<String>().split('%').enumerate().map(|(i, part)| {
@@ -177,7 +177,7 @@ fn order_exhaustion(index: u64, q: &str, st: &mut Stats) -> (usize, usize, bool)
 pub fn corpus_digest() -> String {
     // canonical outputs of a fixed corpus, for cross-process comparison
     let mut acc = Vec::new();
-    for i in 0..enumr::seq_count(60, 2) {
+    for i in 0..enumr::seq_count((NAMES.len() * VALUES.len()) as u64, 2) {
         let l = list_of(i, 2);
         let q = default_spelling(&l);
         acc.push(format!("{:?}", impl_canon(&q)));
